@@ -88,6 +88,10 @@ def run(ck):
     ck.rule("R3", "heap.vm_alloc maps what it returns", floor=1)
     _page_length_rules(ck)
     _fresh_address_rules(ck)
+    ck.rule("R6", "the VM refuses a mapping that overlaps a mapped page: every page visited, two-sided disjointness test (shared with C24-R3)", floor=1)
+    from sa import cast as _cast6
+    from rules.c24 import overlap_predicate_rules
+    overlap_predicate_rules(ck, _cast6.load(ck.repo, "miasm/jitter/vm_mngr.c"), "R6")
 
     cm = ck.repo.mod(COM)
     fn = cm.func("heap.next_addr")
